@@ -1197,7 +1197,7 @@ class UTPM(Ring, RawAlgorithmsMixIn):
             raise NotImplementedError('not implemented yet')
 
         if axis is None:
-            tmp = numpy.prod(self.data.shape[2:])
+            tmp = int(numpy.prod(self.data.shape[2:]))
             return UTPM(numpy.sum(self.data.reshape(self.data.shape[:2] + (tmp,)), axis = 2))
         else:
             if axis < 0:
